@@ -60,6 +60,8 @@ func c18ExecWire(w c18Wire) (detail string, labels []string) {
 	}
 	c.Lock()
 	c.Version, c.BucketType, c.StorageBackend, c.PoolsMode = str, w.Bucket, w.Storage, w.Pools
+	// a server below 5.5.0 does not know the control send_stream_end_on_client_close_stream and sends no end after a close
+	c.NoClientCloseEnd = w.Raw == "" && c18Cmp(w.S.V, c18V{5, 5, 0, 0}) < 0
 	c.Hook = nil
 	c.Unlock()
 	cfg := lcConfig(c)
